@@ -19,7 +19,7 @@ try:
 except Exception:  # the diff-protocol slice is optional
     fmt = None
 
-GEN_FILES = ["GenWorkLog"] + (fmt.GEN_FILES if fmt else [])
+GEN_FILES = ["GenWorkLog", "GenCheckpoint"] + (fmt.GEN_FILES if fmt else [])
 DRIVERS = ["worklog"] + (fmt.DRIVERS if fmt else [])
 PROPERTY_FILES = ["C01"] + (["C01_fmt"] if fmt else [])
 THEOREMS = ["C01_latest_wins", "C01_stale_refuted", "C01_nonvacuous"] + (fmt.THEOREMS if fmt else [])
